@@ -41,7 +41,7 @@ Definition pc_presess (p : cpc) : bool := match p with CStart | CWaitOpen | COpe
 Record cinv (ch : chan) : Prop := mkCinv {
   ci_wait : reg ch = false -> is_wait (pc ch) = false;
   ci_cev : cev ch = true -> closed_w ch = 0;
-  ci_rd : st_rd ch = true -> se ch = SLive /\ handle ch = true;
+  ci_rd : st_rd ch = true -> se ch = SLive /\ handle ch = true /\ st_eof ch = false;
   ci_dr : st_dr ch <> 0 -> se ch = SLive /\ handle ch = true;
   ci_cw : closed_w ch <> 0 -> handle ch = true;
   ci_live : se ch = SLive -> reg ch = true;
@@ -49,7 +49,8 @@ Record cinv (ch : chan) : Prop := mkCinv {
   ci_log : lstate (clog ch) = expect ch;
   ci_eofd : eofd ch = true -> rbuf ch = false /\ (rs ch = REof \/ rs ch = RClosePending \/ rs ch = RClosed);
   ci_none : se ch = SNone -> eofd ch = false;
-  ci_pre : pc_presess (pc ch) = true -> se ch = SNone
+  ci_pre : pc_presess (pc ch) = true -> se ch = SNone;
+  ci_schan : reg ch = false -> schan ch = false
 }.
 
 (* effect of a channel handler started on an empty context: invariant kept (under a precondition),
@@ -61,32 +62,79 @@ Definition hspec (c slack : nat) (pre : chan -> Prop) (f : cx -> cx) : Prop :=
     pc_pot (pc (x_ch x')) + sum_of kont_pot (x_k x') <= pc_pot (pc ch) + slack /\
     (pc_queued (pc (x_ch x')) = true -> pc (x_ch x') = pc ch \/ In (KCreate c) (x_k x')).
 
-Ltac dm :=
-  repeat (cbn;
-          match goal with
-          | |- context [match ?d with _ => _ end] => destruct d eqn:?
+Ltac ev := cbv -[lstate app Nat.add Nat.le Nat.lt repeat In].
+Ltac evh := cbv -[lstate app Nat.add Nat.le Nat.lt repeat In] in *.
+(* symbolic evaluation by cases: the next stuck match on a variable is split *)
+Ltac dmv := repeat (ev; match goal with
+          | |- context [match ?d with _ => _ end] => is_var d; destruct d
           end).
 
 (* one field of the invariant of the new channel: unchanged fields are hypotheses already *)
 Ltac fld :=
-  cbn;
+  ev;
   first [ assumption
         | solve [ intros; congruence ]
         | solve [ intros; exfalso; congruence ]
         | solve [ intuition (try congruence; try lia) ] ].
+Ltac logfld H8 :=
+  ev; rewrite ?lstate_snoc; rewrite ?H8;
+  repeat (ev; match goal with
+          | |- context [match ?d with _ => _ end] => is_var d; destruct d
+          end);
+  ev; first [ reflexivity | congruence | solve [ intuition congruence ] ].
 
 Ltac fin_cinv :=
-  intros [H1 H2 H3 H4 H5 H6 H7 H8 H9 H10 H11] Hpre;
+  intros [H1 H2 H3 H4 H5 H6 H7 H8 H9 H10 H11 H12] Hpre; evh;
   constructor;
-  [ fld | fld | fld | fld | fld | fld | fld
-  | cbn; rewrite ?lstate_snoc; rewrite ?H8; unfold expect; cbn;
-    repeat match goal with E : _ = _ |- _ => rewrite E end; cbn;
-    first [ reflexivity | congruence | solve [ intuition congruence ] ]
-  | fld | fld | fld ].
+  [ fld | fld | fld | fld | fld | fld | fld | logfld H8 | fld | fld | fld | fld ].
 
-Lemma cleanup_inv c e ch : cinv ch -> True -> cinv (x_ch (chan_cleanup c e (cx0 ch))).
-Proof.
-  unfold cx0, chan_cleanup, sess_lost, wake_read, wake_drains, upc, xk, xds, addlog.
-  Time dm.
-  Time all: fin_cinv.
-Qed.
+Ltac hs :=
+  intros ch; destruct ch; unfold cx0; dmv;
+  (split; [ fin_cinv | split; [ cbn; lia | cbn; intuition (try congruence) ] ]).
+
+Lemma cleanup_spec c e : hspec c 0 (fun _ => True) (chan_cleanup c e).
+Proof. Time hs. Qed.
+
+Definition ptrue (_ : chan) : Prop := True.
+Lemma conn_close_chan_spec c e : hspec c 0 ptrue (conn_close_chan c e).
+Proof. hs. Qed.
+Lemma write_eof_spec c : hspec c 0 ptrue (write_eof c).
+Proof. hs. Qed.
+Lemma chan_close_spec c : hspec c 1 ptrue (chan_close c).
+Proof. hs. Qed.
+Lemma chan_abort_spec c : hspec c 1 ptrue (chan_abort c).
+Proof. hs. Qed.
+Lemma chan_write_spec c cls : hspec c 0 ptrue (chan_write c cls).
+Proof. hs. Qed.
+Lemma chan_pause_spec c : hspec c 0 ptrue chan_pause.
+Proof. hs. Qed.
+Lemma chan_resume_spec c : hspec c 1 ptrue (chan_resume c).
+Proof. hs. Qed.
+Lemma chan_wait_closed_spec c : hspec c 0 ptrue (chan_wait_closed c).
+Proof. hs. Qed.
+Lemma chan_read_spec c : hspec c 0 ptrue (chan_read c).
+Proof. hs. Qed.
+Lemma chan_drain_spec c : hspec c 0 ptrue (chan_drain c).
+Proof. hs. Qed.
+Lemma chan_confirm_spec c : hspec c 0 (fun ch => is_open_wait ch = true /\ reg ch = true) (chan_confirm c).
+Proof. hs. Qed.
+Lemma chan_fail_spec c : hspec c 1 (fun ch => is_open_wait ch = true /\ reg ch = true) (chan_fail c).
+Proof. hs. Qed.
+Lemma chan_data_spec c : hspec c 0 (fun ch => rs_open ch = true) (chan_data c).
+Proof. hs. Qed.
+Lemma chan_peof_spec c : hspec c 1 (fun ch => rs_open ch = true) (chan_peof c).
+Proof. hs. Qed.
+Lemma chan_pclose_spec c : hspec c 1 ptrue (chan_pclose c).
+Proof. hs. Qed.
+Lemma chan_adjust_spec c cls : hspec c 0 ptrue (chan_adjust c cls).
+Proof. hs. Qed.
+Lemma chan_reply_spec c ok : hspec c 0 (fun ch => reg ch = true) (chan_reply c ok).
+Proof. hs. Qed.
+Lemma chan_request_spec c f w a : hspec c 1 ptrue (chan_request c f w a).
+Proof. hs. Qed.
+Lemma create_step_spec c tr : hspec c 0 ptrue (create_step c tr).
+Proof. hs. Qed.
+Lemma start_reading_spec c : hspec c 1 ptrue (start_reading c).
+Proof. hs. Qed.
+Lemma finish_open_spec c : hspec c 1 ptrue (finish_open c).
+Proof. hs. Qed.
